@@ -140,13 +140,34 @@ pub fn lockstep(seed: u64, nthreads: usize, rounds: usize, out: &str, cases: &st
     let per_round = 6usize;
     // the schedule of cases is fixed before the threads start: every thread walks the same list
     let mut rng = StdRng::seed_from_u64(seed ^ 0x10c5);
-    let plan: Arc<Vec<Vec<usize>>> = Arc::new((0..rounds).map(|_| (0..per_round).map(|_| rng.gen_range(0..texts.len())).collect()).collect());
+    // each round concentrates on ONE function: the cases are grouped by the name before the first "(" and a round draws all its
+    // cases from one group, so that the threads meet inside the same function object at the same time
+    let mut groups: std::collections::BTreeMap<String, Vec<usize>> = std::collections::BTreeMap::new();
+    for (i, t) in texts.iter().enumerate() {
+        groups.entry(t.split('(').next().unwrap_or("").trim().to_string()).or_default().push(i);
+    }
+    // rounds walk through the groups whose key is a plain function name in turn (every function gets its rounds in every trial);
+    // every third round is drawn from the remaining groups (calls inside projections, filters, expression references)
+    let plain: Vec<String> = groups.keys().filter(|k| k.chars().all(|c| c.is_ascii_alphanumeric() || c == '_')).cloned().collect();
+    let other: Vec<String> = groups.keys().filter(|k| !plain.contains(k)).cloned().collect();
+    let offset = rng.gen_range(0..plain.len().max(1));
+    let plan: Arc<Vec<Vec<usize>>> = Arc::new(
+        (0..rounds)
+            .map(|r| {
+                let key = if r % 3 == 2 && !other.is_empty() { &other[rng.gen_range(0..other.len())] } else { &plain[(offset + r - r / 3) % plain.len()] };
+                let g = &groups[key];
+                (0..per_round).map(|_| g[rng.gen_range(0..g.len())]).collect()
+            })
+            .collect(),
+    );
     let current: Arc<RwLock<Option<&'static jmespath::Runtime>>> = Arc::new(RwLock::new(None));
     let arrived = Arc::new(AtomicUsize::new(0));
+    let arrived_case = Arc::new(AtomicUsize::new(0));
+    let reps = 60usize;
     let results: Arc<Mutex<Vec<Value>>> = Arc::new(Mutex::new(vec![]));
     let mut handles = vec![];
     for t in 0..nthreads {
-        let (plan, current, arrived, results, docs) = (plan.clone(), current.clone(), arrived.clone(), results.clone(), docs.clone());
+        let (plan, current, arrived, arrived_case, results, docs) = (plan.clone(), current.clone(), arrived.clone(), arrived_case.clone(), results.clone(), docs.clone());
         let texts = texts.clone();
         let pool = pool.clone();
         handles.push(std::thread::spawn(move || {
@@ -158,6 +179,12 @@ pub fn lockstep(seed: u64, nthreads: usize, rounds: usize, out: &str, cases: &st
                     std::hint::spin_loop();
                 }
             };
+            let spin_case = |k: usize| {
+                arrived_case.fetch_add(1, Ordering::SeqCst);
+                while arrived_case.load(Ordering::SeqCst) < k * nthreads {
+                    std::hint::spin_loop();
+                }
+            };
             for (r, round) in plan.iter().enumerate() {
                 if t == 0 {
                     let mut rt = jmespath::Runtime::new();
@@ -166,13 +193,26 @@ pub fn lockstep(seed: u64, nthreads: usize, rounds: usize, out: &str, cases: &st
                 }
                 spin((2 * r + 1) * nthreads);          // the runtime of this round is published
                 let rt: &'static jmespath::Runtime = current.read().unwrap().unwrap();
-                for &i in round.iter() {
-                    let outv = guarded(|| match rt.compile(&texts[i]) {
-                        Ok(e) => outcome(&e.search(docs[i].clone()), &texts[i]),
-                        Err(e) => json!({"err":err_to_json(&e, &texts[i]),"stage":"compile"}),
-                    });
-                    seq += 1;
-                    log.push(json!({"e":"sync","thr":t,"seq":seq,"text":pool[i]["text"],"doc":pool[i]["doc"],"out":outv}));
+                for (ci, &i) in round.iter().enumerate() {
+                    // all threads enter the same case together and repeat it in a tight loop: they are inside the same function at the
+                    // same time, again and again; each distinct outcome is logged once with its multiplicity
+                    spin_case(r * per_round + ci + 1);
+                    let compiled = rt.compile(&texts[i]);
+                    let mut seen: Vec<(Value, u64)> = vec![];
+                    for _ in 0..reps {
+                        let outv = guarded(|| match &compiled {
+                            Ok(e) => outcome(&e.search(docs[i].clone()), &texts[i]),
+                            Err(e) => json!({"err":err_to_json(e, &texts[i]),"stage":"compile"}),
+                        });
+                        match seen.iter_mut().find(|(v, _)| *v == outv) {
+                            Some((_, m)) => *m += 1,
+                            None => seen.push((outv, 1)),
+                        }
+                    }
+                    for (outv, m) in seen {
+                        seq += 1;
+                        log.push(json!({"e":"sync","thr":t,"seq":seq,"mult":m,"text":pool[i]["text"],"doc":pool[i]["doc"],"out":outv}));
+                    }
                 }
                 spin((2 * r + 2) * nthreads);          // nobody still uses it when thread 0 replaces it
             }
